@@ -186,7 +186,9 @@ func stringProbes(fr *validate.FieldRules) []string {
 	}
 	for _, s := range []string{"", "12345", "123456", "x12345", "1234", "abc", "abbbc", "xxabcxx", "ac", "a_1", "A1", "1a", "ab", "abz", "zab",
 		"user@example.com", "not-an-email", "123e4567-e89b-12d3-a456-426614174000", "not-a-uuid", "https://example.com/x?y=1", "relative/path", "example.com", "exa_mple..com",
-		"192.168.0.1", "256.1.1.1", "::1", "2001:db8::8a2e:370:7334", "zzz"} {
+		"192.168.0.1", "256.1.1.1", "::1", "2001:db8::8a2e:370:7334", "zzz",
+		// for the patterns with slashes, dots and escapes: matching texts and the texts a re-escaped pattern would match instead
+		"3/4", `3\/4`, "3.4", "http://example.com", `http:\/\/example.com`, `http:\\/\\/example.com`, "https://a.b", "v1.2", "v1x2", `v1\.2`} {
 		add(s)
 	}
 	var out []string
